@@ -310,12 +310,33 @@ def all_funcs(tus):
             yield tus[f].funcs[name]
 
 
-def find_func(tus, name, file=None):
+_STATIC_INLINED = {}
+
+
+def find_func(tus, name, file=None, raw=False):
+    """the function `name`.  File-local ('static') functions it calls are read in place (unless raw): the pinned sources contain no
+    static function at all, so a static callee is a helper somebody extracted from this body, and a rule written against the
+    body must see the statements where they were - otherwise an 'extract helper' refactoring looks like a missing pattern."""
     for f in sorted(tus):
         if file and f != file and os.path.basename(f) != file:
             continue
         if name in tus[f].funcs:
-            return tus[f].funcs[name]
+            fn = tus[f].funcs[name]
+            if raw:
+                return fn
+            key = (id(tus), fn.file, name)
+            if key not in _STATIC_INLINED:
+                byname = {g.name: g for g in all_funcs(tus)}
+                statics = set(n_ for n_, g in byname.items() if getattr(g, "static", False) and g.file == fn.file and n_ != name)
+                called = set(x.name for st, x in all_exprs(fn.body) if x.k == "call") if fn.body is not None else set()
+                res = fn
+                if called & statics:
+                    try:
+                        res, _d, _k = inline_calls(fn, byname, which=statics, depth=3)
+                    except Exception:
+                        res = fn
+                _STATIC_INLINED[key] = res
+            return _STATIC_INLINED[key]
     raise AnalysisError("anchor vanished: C function %s%s" % (name, " in %s" % file if file else ""))
 
 
@@ -434,6 +455,7 @@ class _Conv(object):
                 self.declscope[c["id"]] = "param"
         qt = top["type"]["qualType"]
         f = Func(top["name"], self.rel, self._line(top), params, None, qt.split("(")[0].strip(), self.tu)
+        f.static = top.get("storageClass") == "static"
         self.func = f
         f.body = self.stmt(body)
         self.tu.funcs[f.name] = f
@@ -1287,7 +1309,7 @@ _INLINED_CACHE = {}
 def inlined_func(tus, name, file=None, keep=()):
     """find_func(...) with the statement-level calls of other functions of the sources replaced by their bodies (helpers named in
     keep stay calls).  Rules written against one function body read through an 'extract helper' refactoring with it."""
-    f = find_func(tus, name, file)
+    f = find_func(tus, name, file, raw=True)
     key = (id(tus), f.file, name, tuple(sorted(keep)))
     if key not in _INLINED_CACHE:
         byname = {g.name: g for g in all_funcs(tus)}
